@@ -75,3 +75,19 @@ package parse
 //@ func Input.Reset
 //@   requires[S] z != nil
 //@   ensures[S]  z.start == 0 && z.pos == 0
+
+// ---- constructors
+//@ func NewInputBytes
+//@   ensures[S]  result != nil && bufInv(result) && result.pos == 0 && result.start == 0
+//@   ensures[F]  result.err == nil && len(result.buf) == len(b)+1
+//@   ensures[F]  forall(i, 0, len(b), result.buf[i] == old(b[i]))
+//@   ensures[F,C12] @frame: sameBytesExcept(ptr(b)+len(b), ptr(b)+len(b)+1)
+//@   ensures[F,C12] @borrow: len(b) == 0 || cap(b) == len(b) ==> sameBytesExcept(0, 0)
+
+//@ func NewInputString
+//@   ensures[S]  result != nil && bufInv(result) && result.pos == 0 && result.start == 0
+//@   ensures[F]  result.err == nil && len(result.buf) == len(s)+1
+//@   ensures[F]  sameBytesExcept(0, 0)
+
+//@ func NewInput
+//@   ensures[S]  result != nil && bufInv(result) && result.pos == 0 && result.start == 0
